@@ -94,12 +94,13 @@ def snapshot(d):
 
 def global_snapshot(dit, session=False):
     import dit.math.ops as ops
-    if session:
-        # a session brings new logarithm bases into being, so the set of memoised bases legitimately grows (or, for a
-        # bounded memo, turns over); what must not change is what each memoised base stands for
-        cache = repr(sorted(repr(k) for k, o in list(ops.cache.items()) if o.get_base() != k))
-    else:
-        cache = repr(sorted(map(repr, ops.cache.keys())))
+    # The memo behind get_ops is hidden state that a query may legitimately extend: a call in a base not asked before
+    # memoises its operations object, and by Props/C10Memo (memo_value, memo_stable) that is not observable - every
+    # later call returns what it would have returned anyway.  What must not change is what each memoised key stands
+    # for (the invariant of those theorems): the entries whose operations object reports another base than its key.
+    # (An earlier version compared the key set itself outside sessions; that asked more than the statement - e.g.
+    # copypmf(d) of a base-'e' distribution asks for the numerical base 2.718..., a new key.)
+    cache = repr(sorted(repr(k) for k, o in list(ops.cache.items()) if o.get_base() != k))
     return {'params': repr(sorted((k, repr(v)) for k, v in dit.ditParams.items())),
             'ops_cache': cache, 'np_err': repr(np.geterr()),
             'prng': repr(dit.math.prng.get_state()[1][:8].tolist()) + str(dit.math.prng.get_state()[2])}
@@ -312,10 +313,7 @@ def extend_registry(dit, tier, add, A):
     add('math.sample(explicit)', lambda d, e: dit.math.sample(d, size=3, rand=np.array([0.1, 0.5, 0.9])))
 
     # ---- helpers that read a distribution
-    # NOT JUDGED (reported): copypmf(d) with no base on a distribution in base 'e' asks get_ops for the *numerical* base
-    # 2.718..., which memoises a second operations object under a new key of dit.math.ops.cache (a query that grows
-    # the global cache); that one input class is left out, every other form is called
-    add('helpers.copypmf', lambda d, e: _each([lambda: dit.copypmf(d) if d.get_base() != 'e' else None,
+    add('helpers.copypmf', lambda d, e: _each([lambda: dit.copypmf(d),
                                                lambda: dit.copypmf(d, base=2, mode='dense'),
                                                lambda: dit.copypmf(d, base='linear', mode='sparse'),
                                                lambda: dit.copypmf(d, base='e', mode='asis')]))
@@ -701,7 +699,7 @@ class C10(object):
             "change; sessions give every member a scalar companion over its stored values) x 7 representations of a 3-variable argument (every callable of the tier's registry meets every representation in each run) "
             "(sparse/dense, linear/log2/loge, named, untrimmed with stored zeros, custom sample space) x random "
             "interleavings of 12 calls; snapshot of every argument (outcomes, pmf bytes, base, sparse flag, alphabet, "
-            "sample space, names, mask, rv mode, PRNG state, index), of ditParams, the ops cache keys, NumPy's error "
+            "sample space, names, mask, rv mode, PRNG state, index), of ditParams, what every memoised key of the ops cache stands for, NumPy's error "
             "state and the global PRNG before/after each call; every deterministic call repeated at the end of the "
             "interleaving. Non-trivial = the interleaving has >= 8 distinct callables. "
             "Sessions (one for every three interleavings): 2-12 distributions over one outcome table, each with its own "
